@@ -1,3 +1,4 @@
 pub mod calendar;
 pub mod fields;
+pub mod format;
 pub mod instant;
